@@ -32,7 +32,7 @@ import (
 // scenarios
 
 type Step struct {
-	Op   string `json:"op"`             // merge: send close take drain | repl: send close take drain | smerge: item end err cnext close crel sleep
+	Op   string `json:"op"`             // merge: send close take drain | repl: send close take drain | smerge: item end err cnext ccancel close crel sleep
 	I    int    `json:"i,omitempty"`    // input / destination
 	V    int    `json:"v,omitempty"`    // value; negative = nil interface value
 	E    int    `json:"e,omitempty"`    // injected error id
@@ -1083,6 +1083,21 @@ func execSmerge(t *testing.T, sc Scn) *runOut {
 				callNext(st.Live)
 				o.effSteps++
 				check("cnext " + map[bool]string{true: "live", false: "expired"}[st.Live])
+			case "ccancel":
+				// the context of the pending Next is cancelled while the call is in progress
+				mu.Lock()
+				ok := pending && pendingLive
+				if ok {
+					pendingLive = false
+				}
+				mu.Unlock()
+				if !ok {
+					continue
+				}
+				cancelPending()
+				o.effSteps++
+				o.notes["ccancel-while-pending"]++
+				check("ccancel")
 			case "close":
 				if closed || isPending() {
 					continue
@@ -1443,6 +1458,10 @@ func genSmerge(r *vlib.Rand, k int) Scn {
 		case 3:
 			if !closed {
 				sc.Steps = append(sc.Steps, Step{Op: "cnext", Live: !r.Chance(1, 6)})
+				if r.Chance(1, 8) {
+					// the consumer gives up while waiting (skipped when that Next has already returned)
+					sc.Steps = append(sc.Steps, Step{Op: "ccancel"})
+				}
 			}
 		case 4:
 			if !closed && r.Chance(1, 2) {
@@ -1598,8 +1617,9 @@ func directedIdle() []Scn {
 						sc.Steps = append(sc.Steps, next, sleep)
 					}
 					switch follow {
-					case 0: // an input delivers; a second idle period with the next Next pending; it delivers again
-						sc.Steps = append(sc.Steps, item(0), next, sleep, item(0), next)
+					case 0: // an input delivers; a second idle period with the next Next pending — the consumer gives
+						// up, asks again —; it delivers again
+						sc.Steps = append(sc.Steps, item(0), next, sleep, Step{Op: "ccancel"}, next, item(0), next)
 					case 1: // every input ends
 					case 2: // an input fails with its own error (plain, or context.DeadlineExceeded itself)
 						sc.Steps = append(sc.Steps, Step{Op: "err", I: 0, E: []int{1, errBareDeadline, 21}[k-1]}, next, next)
@@ -1692,7 +1712,7 @@ func enumerate(t *testing.T, ms *models, res *vlib.Result, until time.Time) bool
 				tail = append(tail, Step{Op: "crel", I: i})
 			}
 			if sp.fam == "smerge-idle" {
-				alpha = append(alpha, Step{Op: "sleep", D: "2h"})
+				alpha = append(alpha, Step{Op: "sleep", D: "2h"}, Step{Op: "ccancel"})
 			}
 			tail = append(tail, Step{Op: "cnext", Live: true}, Step{Op: "close"})
 		}
